@@ -154,7 +154,7 @@ impl ModelState {
             Reg::Ques => &self.ques,
         }
     }
-    fn summary(&self, r: Reg, reading: Reading) -> Option<bool> {
+    pub fn summary(&self, r: Reg, reading: Reading) -> Option<bool> {
         let g = self.reg_ref(r);
         match reading {
             Reading::Condition => {
@@ -1035,7 +1035,8 @@ pub fn predict_obs(root: &MNode, st: &ModelState, step: &SendStep, reading: Read
         if !res_ok {
             return false;
         }
-        if q.state_known {
+        {
+            // (after STATus:PRESet only the condition registers are unknown: cond_unknown)
             let mut e = q.state.clone();
             if let Err(x) = result {
                 e.record_error(x);
